@@ -399,6 +399,12 @@ class FlowParser:
                     if len(row.loop_variable) >= 2 and row.loop_variable[1]:
                         index_variable = row.loop_variable[1]
                     self.sheet_parser.create_bookmark(str(depth))
+                    # Outer variables hidden by the loop variables for the loop's duration
+                    shadowed = {
+                        name: self.sheet_parser.context[name]
+                        for name in (iteration_variable, index_variable)
+                        if name in self.sheet_parser.context
+                    }
                     new_node_group = NodeGroup()
                     self.node_group_stack.append(new_node_group)
                     # Interpret the row like a no-op to get the edges
@@ -419,6 +425,8 @@ class FlowParser:
                         self.sheet_parser.remove_from_context(iteration_variable)
                         if index_variable:
                             self.sheet_parser.remove_from_context(index_variable)
+                        for name, value in shadowed.items():
+                            self.sheet_parser.add_to_context(name, value)
                     self.sheet_parser.remove_bookmark(str(depth))
                 elif row.type == "begin_block":
                     new_node_group = NodeGroup()
